@@ -1086,7 +1086,7 @@ func init() {
 				return units
 			})
 		},
-		Reach: []string{"compiled", "accepted", "parsed", "tree", "ran"},
+		Reach:      []string{"compiled", "accepted", "parsed", "tree", "ran"},
 		ReachEntry: map[string]string{"parsed": "VerifC06Tokens", "tree": "VerifC06Tokens"},
 		Bounds: func(tier string) map[string]interface{} {
 			l, n := 2, 3
